@@ -505,6 +505,13 @@ def r4_9(ctx):
     ctx.check(not miss and not extra, "valid-quantifier-table", init[0].where(), "the pattern %r recognises {n}, {n,m} and {n,} and nothing else of the table" % pats[0],
               "the pattern %r does not recognise %s%s as a valid repetition quantifier: such a quantifier is escaped, `a{2,} (regex)` matches the text `a{2,}` and "
               "not `aaa`" % (pats[0], miss, (" and accepts %s" % extra) if extra else ""))
+    # the expression side of an escaped glob is decoded strictly: GlobRule::matches compares lossy text of the *line*, where every invalid byte is U+FFFD -
+    # an expression that were decoded lossily too would match lines with *other* invalid bytes at those places
+    au = prog.fn("apply_escaped_filter_utf8")
+    lossy = [au.loc(bb) for bb, t in au.calls() if (mname(t) or "").endswith("from_utf8_lossy")]
+    strict = [bb for bb, t in au.calls() if (mname(t) or "") in ("String::from_utf8", "str::from_utf8")]
+    ctx.check(bool(strict) and not lossy, "escaped-glob-strict-utf8", lossy[0] if lossy else au.where(), "apply_escaped_filter_utf8 rejects resolved bytes that are not UTF-8",
+              "apply_escaped_filter_utf8 decodes the resolved bytes lossily: `caf\\xe9 (esc) (glob)` then matches `caf\\xe8` and `caf\\xff` (every invalid byte is U+FFFD on both sides)")
     f = prog.fn("resolve_escape_sequences_to_bytes")
     bodies = [f] + prog.closures_of(f)
     # closures of helpers that were inlined at several sites keep their own definition path
@@ -528,4 +535,4 @@ def run(ctx):
     ctx.run_rule("R4.5", "escape decoder tables (letter escapes, \\xHH radix 16 x2 digits, \\0OO radix 8, \\\\) [E-TABLE]", r4_5, floor=6)
     from . import c01
     ctx.run_rule("R4.8", "the text every rule kind compares is the line without its line feed(s) only: trim_newlines names no character but `\\n` (shared with C01 R1.9) [E-TABLE of constants]", c01.r1_9, floor=3)
-    ctx.run_rule("R4.9", "the quantifier clean-up knows {n}, {n,m} and {n,} (pattern constant evaluated on a table); hex / octal digits are validated before from_str_radix (F40, F42) [E-TABLE]", r4_9, floor=2)
+    ctx.run_rule("R4.9", "escaped glob expressions are decoded strictly; the quantifier clean-up knows {n}, {n,m} and {n,} (pattern constant evaluated on a table); hex / octal digits are validated before from_str_radix (F40, F42) [E-TABLE]", r4_9, floor=2)
